@@ -98,6 +98,11 @@ def op_alphabet(mw):
     if not mw.cons and not w0.cons:
         ops.append(("m", ("con", "simple")))
         ops.append(("f0", ("con", "simple")))
+    for i, w in enumerate(mw.members):  # a source of one member declared through the multi-fit (fits=<int>), simple and matrix form
+        if w.ftype in ("xy", "indexed") or (w.ftype == "hist" and w.cost_id == "chi2"):
+            for kind in ("y-abs-rho", "y-cov"):
+                if not any(n.startswith("via%d" % i) for n in w.sources):
+                    ops.append(("m", ("addto", i, kind, "via%d%s" % (i, kind[2:4]))))
     for i in range(len(mw.members)):  # complete value list / the member's own fit, issued on every member
         ops.append(("f%d" % i, ("setall", "P2")))
         ops.append(("f%d" % i, ("fit",)))
@@ -120,6 +125,8 @@ def allowed_pair(op1, op2):
 
 def valid(mw, op):
     o = op[1]
+    if op[0] == "m" and o[0] == "addto":
+        return not mw.shared  # own sources are declared before the members start sharing (kafe2 rebuilds the joint covariance at sharing time)
     if op[0] == "m":
         if o[0] in ("set", "setall") and mw.fixed:
             return False
